@@ -101,6 +101,26 @@ impl Prop for C10 {
                 },
             ));
         }
+        f.push(Family::new(
+            "lists-many-parts",
+            Mode::Full,
+            "lists of k parts for every k in 2..=40 and 64, 100: k times '1 second', k times '2 minutes', and the cycle second / minute / hour / day repeated, side by side and joined by '+': the value is the sum whatever the number of parts",
+            move |ch| {
+                let ks: Vec<usize> = (2..=40).chain([64, 100].into_iter()).collect();
+                let k = *ch.pick(&ks);
+                let plus = ch.flag();
+                let sep = if plus { " + " } else { " " };
+                let (parts, total): (Vec<String>, i64) = match ch.choose(3) {
+                    0 => ((0..k).map(|_| "1 second".to_string()).collect(), k as i64),
+                    1 => ((0..k).map(|_| "2 minutes".to_string()).collect(), 120 * k as i64),
+                    _ => {
+                        let cyc = [("1 second", 1i64), ("1 minute", 60), ("1 hour", 3600), ("1 day", 86400)];
+                        ((0..k).map(|i| cyc[i % 4].0.to_string()).collect(), (0..k).map(|i| cyc[i % 4].1).sum())
+                    }
+                };
+                Some(case(parts.join(sep), total, "en", "many-parts"))
+            },
+        ));
         {
             let maxn = tier.pick(5, 7);
             f.push(Family::new(
